@@ -55,8 +55,8 @@ func checkC06(r *Run) {
 			r1.OK(key, x.Goal.At.Pos(), "%s", x.Why)
 		case x.Lifted:
 			r1.OKt(key, x.Goal.At.Pos(), "lifted to a precondition of %s, to be proved at every call site", FuncName(x.Fn))
-		case x.Fn == write:
-			r1.OKt(key, x.Goal.At.Pos(), "exempt by table: the slice in (*BaseClient).write depends on the io.Writer contract of the Transport (a short write must return an error), not on peer bytes")
+		case x.Fn == write || sliceOfWriteProgress(x.Goal.At):
+			r1.OKt(key, x.Goal.At.Pos(), "exempt by table: the slice in a write loop depends on the io.Writer contract of the Transport (Write returns 0 <= n <= len(p)), not on peer bytes")
 		case func() bool {
 			mk, isMk := x.Goal.At.(*ssa.MakeSlice)
 			if !isMk {
@@ -489,6 +489,38 @@ func (w *widthAnalysis) width1(v ssa.Value) int {
 		}
 	}
 	return w.typeWidth(v.Type())
+}
+
+// sliceOfWriteProgress: the obligation belongs to `b[n:]` where n accumulates the counts returned by an io.Writer's Write.
+func sliceOfWriteProgress(at ssa.Instruction) bool {
+	sl, ok := at.(*ssa.Slice)
+	if !ok || sl.Low == nil || sl.High != nil {
+		return false
+	}
+	seen := map[ssa.Value]bool{}
+	var fromWrite func(v ssa.Value, depth int) bool
+	fromWrite = func(v ssa.Value, depth int) bool {
+		if depth > 6 || seen[v] {
+			return false
+		}
+		seen[v] = true
+		switch x := v.(type) {
+		case *ssa.Extract:
+			if k, ok := x.Tuple.(*ssa.Call); ok && x.Index == 0 && k.Call.IsInvoke() && k.Call.Method.Name() == "Write" {
+				return true
+			}
+		case *ssa.BinOp:
+			return fromWrite(x.X, depth+1) || fromWrite(x.Y, depth+1)
+		case *ssa.Phi:
+			for _, e := range x.Edges {
+				if fromWrite(e, depth+1) {
+					return true
+				}
+			}
+		}
+		return false
+	}
+	return fromWrite(sl.Low, 0)
 }
 
 // ---- R-C06-3 -----------------------------------------------------------------------------------------------
